@@ -18,7 +18,7 @@ class C18(InterpProp):
     cmp_err = None
     cmp_time = False
     cmp_outcome = False
-    quick_cases = 500
+    quick_cases = 1500
     thorough_cases = 15000
     n_ops = 24
     with_contracts = 0.7
